@@ -119,3 +119,319 @@ def concrete_inputs(model):
         for cut in range(1, cols):
             cands.append(dict(self=TypeBlocks.from_blocks(split(a, cut)), other=TypeBlocks.from_blocks(split(b, cut)), **opts))
     return cands
+
+
+# =============================================================================================
+# C10 / C06: Index.equals against the content predicate of the property, over ghost label cells:
+#   ub("ieq", a, b, i) = NumPy `==` of label i of arrays a and b;  ub("inan", a, i) = label i of a is NaN / NaT (isna, include_none=False)
+#   ub("ib", m, i) = cell i of the Boolean array m.
+IX = 'static_frame/core/index.py'
+RECORDS['EqArr'] = dict(aid='int', n='int', dtype='dtype')
+RECORDS['EqCmp'] = dict(cid='int', n='int', is_false='bool', writeable='bool')     # what `a == b` returns: the scalar False, or a Boolean array
+RECORDS['EqIndex'] = {'iid': 'int', 'name': 'elem', 'dtype': 'dtype', '__class__': 'elem', 'values': 'EqArr', '_recache': 'bool', '_map': 'opt[elem]',
+                      '_labels': 'EqArr', '_positions': 'elem'}
+
+contract(NP, 'ndarray.__eq__', key='EqArr.__eq__', assumed=True,
+    params=dict(self='EqArr', other='EqArr'), order=['self', 'other'], result='EqCmp',
+    requires=['self.n == other.n'],
+    # ASSUMED NumPy (>= 2) contract: two 1-D arrays of one length always compare cell by cell into a new Boolean array (the legacy scalar False for
+    # incomparable dtypes is gone; the function's `eq is False` branch is therefore dead under this assumption and listed as such)
+    ensures=['result.n == self.n and result.writeable and not result.is_false',
+             'forall_in(0, self.n, lambda i: ub("ib", result.cid, i) == ub("ieq", self.aid, other.aid, i))'])
+contract(NP, 'ndarray.__and__', key='EqCmp.__and__', assumed=True,
+    params=dict(self='EqCmp', other='EqCmp'), order=['self', 'other'], result='EqCmp',
+    requires=['self.n == other.n and not self.is_false and not other.is_false'],
+    ensures=['result.n == self.n and not result.is_false',
+             'forall_in(0, self.n, lambda i: ub("ib", result.cid, i) == (ub("ib", self.cid, i) and ub("ib", other.cid, i)))'])
+contract(NP, 'ndarray.__setitem__', key='EqCmp.__setitem__', assumed=True,
+    params=dict(self='EqCmp', key='EqCmp', value='bool'), order=['self', 'key', 'value'], result='none', modifies_self=True,
+    requires=['self.writeable and not self.is_false and not key.is_false', 'value', 'key.n == self.n'],
+    ensures=['self.n == old(self.n) and not self.is_false and self.writeable',
+             'forall_in(0, self.n, lambda i: ub("ib", self.cid, i) == (ub("ib", old(self.cid), i) or ub("ib", key.cid, i)))'])
+contract(NP, 'ndarray.all', key='EqCmp.all', assumed=True,
+    params=dict(self='EqCmp'), order=['self'], result='bool',
+    requires=['not self.is_false'],
+    ensures=['result == forall_in(0, self.n, lambda i: ub("ib", self.cid, i))'])
+
+_ICONTENT = 'forall_in(0, self.values.n, lambda i: ub("ieq", self.values.aid, other.values.aid, i) or (skipna and ub("inan", self.values.aid, i) and ub("inan", other.values.aid, i)))'
+contract(IX, 'Index.equals', key='EqIndex.equals',
+    props=['C10', 'C06'],
+    params=dict(self='EqIndex', other='EqIndex', compare_name='bool', compare_dtype='bool', compare_class='bool', skipna='bool'),
+    order=['self', 'other'], kwonly=['compare_name', 'compare_dtype', 'compare_class', 'skipna'],
+    defaults=dict(compare_name='False', compare_dtype='False', compare_class='False', skipna='True'),
+    result='bool',
+    requires=[
+        'self.values.n >= 0 and other.values.n >= 0',
+        # the label cache is up to date (refreshing it is the first thing the function does; the refresh itself is not modelled)
+        'not self._recache',
+        # one object has one identity; different objects hold different label arrays
+        'implies(self.iid == other.iid, self.values.aid == other.values.aid)',
+        # NumPy fact: a missing label compares unequal to everything (NaN != x, NaT != x)
+        'forall(lambda i: implies(ub("inan", self.values.aid, i) or ub("inan", other.values.aid, i), not ub("ieq", self.values.aid, other.values.aid, i)))',
+    ],
+    calls={
+        'id': dict(params=dict(o='EqIndex'), order=['o'], result='int', ensures=['result == o.iid']),
+        'isinstance': dict(params={}, order=['o', 't'], result='bool', ensures=['result']),       # `other` is an Index here (sort of the parameter)
+        'len': dict(params=dict(o='EqIndex'), order=['o'], result='int', ensures=['result == o.values.n']),
+        'self._update_array_cache': dict(params={}, order=[], result='none', ensures=['True']),
+        # ASSUMED: isna_array(a, include_none=False) marks exactly the NaN / NaT cells
+        'isna_array': dict(params=dict(a='EqArr', include_none='bool'), order=['a'], kwonly=['include_none'], result='EqCmp',
+                           ensures=['result.n == a.n and not result.is_false', 'forall_in(0, a.n, lambda i: ub("ib", result.cid, i) == ub("inan", a.aid, i))']),
+    },
+    model_hook='specs.t2_equals:index_model_hook', concrete_inputs='specs.t2_equals:index_concrete_inputs',
+    requires_concrete=[],
+    ensures_concrete=['result == ref_index_equals(self, other, compare_name, compare_dtype, compare_class, skipna)'],
+    ensures=[
+        # from the property: the same object is equal to itself; otherwise true exactly when same length, the requested extras, and pairwise equal labels
+        # where two missing labels at one position count as equal only under skipna
+        'implies(self.iid == other.iid, result)',
+        ('implies(self.iid != other.iid, result == (implies(compare_class, self.__class__ == other.__class__) and self.values.n == other.values.n and '
+         'implies(compare_name, self.name == other.name) and implies(compare_dtype, self.dtype == other.dtype) and ' + _ICONTENT + '))'),
+    ])
+
+
+# Series.equals: the same predicate over the values, conjoined with Index.equals of the two indices under the SAME options (modular: the
+# callee is the proved contract above)
+SER = 'static_frame/core/series.py'
+RECORDS['EqSeries'] = {'sid': 'int', '_name': 'elem', '__class__': 'elem', 'values': 'EqArr', '_index': 'EqIndex'}
+_SCONTENT = 'forall_in(0, self.values.n, lambda i: ub("ieq", self.values.aid, other.values.aid, i) or (skipna and ub("inan", self.values.aid, i) and ub("inan", other.values.aid, i)))'
+_IXC = _ICONTENT.replace('self.values', 'self._index.values').replace('other.values', 'other._index.values')
+contract(SER, 'Series.equals', key='EqSeries.equals',
+    props=['C10'],
+    params=dict(self='EqSeries', other='EqSeries', compare_name='bool', compare_dtype='bool', compare_class='bool', skipna='bool'),
+    order=['self', 'other'], kwonly=['compare_name', 'compare_dtype', 'compare_class', 'skipna'],
+    defaults=dict(compare_name='False', compare_dtype='False', compare_class='False', skipna='True'),
+    result='bool',
+    requires=[
+        'self.values.n >= 0 and other.values.n >= 0 and self._index.values.n >= 0 and other._index.values.n >= 0',
+        'not self._index._recache',
+        'implies(self.sid == other.sid, self.values.aid == other.values.aid)',
+        'implies(self._index.iid == other._index.iid, self._index.values.aid == other._index.values.aid)',
+        'forall(lambda i: implies(ub("inan", self.values.aid, i) or ub("inan", other.values.aid, i), not ub("ieq", self.values.aid, other.values.aid, i)))',
+        'forall(lambda i: implies(ub("inan", self._index.values.aid, i) or ub("inan", other._index.values.aid, i), not ub("ieq", self._index.values.aid, other._index.values.aid, i)))',
+    ],
+    calls={
+        'id': dict(params=dict(o='EqSeries'), order=['o'], result='int', ensures=['result == o.sid']),
+        'isinstance': dict(params={}, order=['o', 't'], result='bool', ensures=['result']),
+        'len': dict(params=dict(o='EqArr'), order=['o'], result='int', ensures=['result == o.n']),
+        'isna_array': dict(params=dict(a='EqArr', include_none='bool'), order=['a'], kwonly=['include_none'], result='EqCmp',
+                           ensures=['result.n == a.n and not result.is_false', 'forall_in(0, a.n, lambda i: ub("ib", result.cid, i) == ub("inan", a.aid, i))']),
+    },
+    model_hook='specs.t2_equals:series_model_hook', concrete_inputs='specs.t2_equals:series_concrete_inputs',
+    requires_concrete=[],
+    ensures_concrete=['result == ref_series_equals(self, other, compare_name, compare_dtype, compare_class, skipna)'],
+    ensures=[
+        'implies(self.sid == other.sid, result)',
+        ('implies(self.sid != other.sid, result == (implies(compare_class, self.__class__ == other.__class__) and self.values.n == other.values.n and '
+         'implies(compare_name, self._name == other._name) and implies(compare_dtype, self.values.dtype == other.values.dtype) and ' + _SCONTENT + ' and '
+         # ... and the indices are equal under the same options
+         '(self._index.iid == other._index.iid or (implies(compare_class, self._index.__class__ == other._index.__class__) and self._index.values.n == other._index.values.n and '
+         'implies(compare_name, self._index.name == other._index.name) and implies(compare_dtype, self._index.dtype == other._index.dtype) and ' + _IXC + '))))'),
+    ])
+
+
+# Frame.equals: shape, (name), TypeBlocks.equals of the block stores, Index.equals of both axes -- all under the SAME options (modular: the three
+# callees are the proved contracts above)
+FR = 'static_frame/core/frame.py'
+RECORDS['EqFrame'] = {'fid': 'int', '_name': 'elem', '__class__': 'elem', '_blocks': 'TypeBlocksC', '_index': 'EqIndex', '_columns': 'EqIndex'}
+_INB = '0 <= r and r < self._blocks._shape[0] and 0 <= c and c < self._blocks._shape[1]'
+_BCONTENT = (f'forall(lambda r, c: implies({_INB}, ub("eq", self._blocks.cid, other._blocks.cid, r, c) or '
+             '(skipna and ub("nan", self._blocks.cid, r, c) and ub("nan", other._blocks.cid, r, c))))')
+
+
+def _ix_pred(ax):
+    return ('(self.{ax}.iid == other.{ax}.iid or (implies(compare_class, self.{ax}.__class__ == other.{ax}.__class__) and self.{ax}.values.n == other.{ax}.values.n and '
+            'implies(compare_name, self.{ax}.name == other.{ax}.name) and implies(compare_dtype, self.{ax}.dtype == other.{ax}.dtype) and '
+            + _ICONTENT.replace('self.values', 'self.{ax}.values').replace('other.values', 'other.{ax}.values') + '))').format(ax=ax)
+
+
+def _ix_req(ax):
+    return ['self.{ax}.values.n >= 0 and other.{ax}.values.n >= 0 and not self.{ax}._recache'.format(ax=ax),
+            'implies(self.{ax}.iid == other.{ax}.iid, self.{ax}.values.aid == other.{ax}.values.aid)'.format(ax=ax),
+            'forall(lambda i: implies(ub("inan", self.{ax}.values.aid, i) or ub("inan", other.{ax}.values.aid, i), not ub("ieq", self.{ax}.values.aid, other.{ax}.values.aid, i)))'.format(ax=ax)]
+
+
+contract(FR, 'Frame.equals', key='EqFrame.equals',
+    props=['C10'],
+    params=dict(self='EqFrame', other='EqFrame', compare_name='bool', compare_dtype='bool', compare_class='bool', skipna='bool'),
+    order=['self', 'other'], kwonly=['compare_name', 'compare_dtype', 'compare_class', 'skipna'],
+    defaults=dict(compare_name='False', compare_dtype='False', compare_class='False', skipna='True'),
+    result='bool',
+    call_alias={'TypeBlocksC.equals': 'TypeBlocks.equals'},
+    attr_alias={'TypeBlocksC.shape': '_shape'},          # ASSUMED: the property TypeBlocks.shape returns the field _shape
+    requires=[
+        'self._blocks._shape[0] >= 0 and self._blocks._shape[1] >= 0 and other._blocks._shape[0] >= 0 and other._blocks._shape[1] >= 0',
+        'forall(lambda r, c: implies(ub("nan", self._blocks.cid, r, c) or ub("nan", other._blocks.cid, r, c), not ub("eq", self._blocks.cid, other._blocks.cid, r, c)))',
+    ] + _ix_req('_index') + _ix_req('_columns'),
+    calls={
+        'id': dict(params=dict(o='EqFrame'), order=['o'], result='int', ensures=['result == o.fid']),
+        'isinstance': dict(params={}, order=['o', 't'], result='bool', ensures=['result']),
+    },
+    ensures=[
+        'implies(self.fid == other.fid, result)',
+        ('implies(self.fid != other.fid, result == (implies(compare_class, self.__class__ == other.__class__) and self._blocks._shape == other._blocks._shape and '
+         'implies(compare_name, self._name == other._name) and '
+         '(self._blocks.cid == other._blocks.cid or (implies(compare_dtype, self._blocks._dtypes == other._blocks._dtypes) and ' + _BCONTENT + ')) and '
+         + _ix_pred('_index') + ' and ' + _ix_pred('_columns') + '))'),
+    ])
+
+
+# IndexHierarchy.equals: same object => true; else class (when asked), shape, name (when asked) and the level trees equal under THE SAME options
+# (routing contract: IndexLevel.equals -- a recursive walk of the label tree -- is ASSUMED to decide, for two trees, content equality with / without
+# skipna and, per option, equality of the names / dtypes / classes of the composed indices; which of these it is asked for is what is proved here)
+IHP = 'static_frame/core/index_hierarchy.py'
+RECORDS['EqIH'] = {'hid': 'int', 'name': 'elem', '__class__': 'elem', 'shape': 'tuple[int,int]', '_levels': 'elem'}
+_LV = ('(cond(skipna, ube("lv_content_skipna", self._levels, other._levels), ube("lv_content", self._levels, other._levels)) and '
+       'implies(compare_name, ube("lv_names", self._levels, other._levels)) and implies(compare_dtype, ube("lv_dtypes", self._levels, other._levels)) and '
+       'implies(compare_class, ube("lv_classes", self._levels, other._levels)))')
+contract(IHP, 'IndexHierarchy.equals', key='EqIH.equals',
+    props=['C10'],
+    params=dict(self='EqIH', other='EqIH', compare_name='bool', compare_dtype='bool', compare_class='bool', skipna='bool'),
+    order=['self', 'other'], kwonly=['compare_name', 'compare_dtype', 'compare_class', 'skipna'],
+    defaults=dict(compare_name='False', compare_dtype='False', compare_class='False', skipna='True'),
+    result='bool',
+    calls={
+        'id': dict(params=dict(o='EqIH'), order=['o'], result='int', ensures=['result == o.hid']),
+        'isinstance': dict(params={}, order=['o', 't'], result='bool', ensures=['result']),
+        'self._levels.equals': dict(params=dict(o='elem', compare_name='bool', compare_dtype='bool', compare_class='bool', skipna='bool'), order=['o'],
+                                    kwonly=['compare_name', 'compare_dtype', 'compare_class', 'skipna'], result='bool',
+                                    ensures=['result == ' + _LV.replace('other._levels', 'o')]),
+    },
+    ensures=[
+        'implies(self.hid == other.hid, result)',
+        'implies(self.hid != other.hid, result == (implies(compare_class, self.__class__ == other.__class__) and self.shape == other.shape and implies(compare_name, self.name == other.name) and ' + _LV + '))',
+    ])
+
+
+def index_model_hook(m, params):
+    import z3
+    s, o = params['self'], params['other']
+
+    def ev(t):
+        return m.eval(t, model_completion=True)
+    sv, ov = s.fields['values'], o.fields['values']
+    n = min(max(ev(sv.fields['n'].t).as_long(), 0), 4)
+    n2 = min(max(ev(ov.fields['n'].t).as_long(), 0), 4)
+    feq = z3.Function('ub_ieq', *([z3.IntSort()] * 3 + [z3.BoolSort()]))
+    fnan = z3.Function('ub_inan', *([z3.IntSort()] * 2 + [z3.BoolSort()]))
+    sa, oa = sv.fields['aid'].t, ov.fields['aid'].t
+    cells = [[z3.is_true(ev(feq(sa, oa, i))), z3.is_true(ev(fnan(sa, i))), z3.is_true(ev(fnan(oa, i)))] for i in range(min(n, n2))]
+    same = lambda f: z3.is_true(ev(s.fields[f].t == o.fields[f].t))
+    nomap = lambda r: z3.is_true(ev(r.fields['_map'].isnone))
+    return dict(n=n, n2=n2, cells=cells, same_name=same('name'), same_dtype=same('dtype'), same_class=same('__class__'), same_object=same('iid'),
+                nomap=[nomap(s), nomap(o)])
+
+
+def index_concrete_inputs(model):
+    """real Index pairs for one counter-model: explicit float labels with the cell pattern of the model, and (when the model leaves both label maps
+    absent) auto-generated positional indices; names / dtypes / classes differ where the model says so"""
+    import numpy as np
+    import static_frame as sf
+    from static_frame.core.util import PositionsAllocator
+    h = model['__hook']
+    opts = dict(compare_name=bool(model.get('compare_name')), compare_dtype=bool(model.get('compare_dtype')), compare_class=bool(model.get('compare_class')),
+                skipna=bool(model.get('skipna', True)))
+    n, n2 = h['n'], h['n2']
+    a = np.arange(1, n + 1, dtype=np.float64)
+    b = np.arange(1, n2 + 1, dtype=np.float64)
+    for i, (eq, ns, no) in enumerate(h['cells']):
+        if ns:
+            a[i] = np.nan
+        if no:
+            b[i] = np.nan
+        elif not eq:
+            b[i] = a[i] + 100 if not ns else 100.0 + i
+    name_b = 'n' if h['same_name'] else 'other'
+    cls_b = sf.Index if h['same_class'] else sf.IndexGO
+    cands = []
+    ia = sf.Index(a, name='n')
+    if h['same_object']:
+        return [dict(self=ia, other=ia, **opts)]
+    cands.append(dict(self=ia, other=cls_b(b if h['same_dtype'] else b.astype(object), name=name_b), **opts))
+    if all(h['nomap']) or True:
+        # positional (auto-generated) indices: labels are the positions
+        pa = sf.Index(PositionsAllocator.get(n), loc_is_iloc=True, name='n')
+        pb = cls_b(PositionsAllocator.get(n2), loc_is_iloc=True, name=name_b)
+        cands.append(dict(self=pa, other=pb, **opts))
+        # the same kind of pair differing in ONE aspect, compared with exactly that option on (the model leaves names / classes opaque)
+        m_ = max(n, 1)
+        pa = sf.Index(PositionsAllocator.get(m_), loc_is_iloc=True, name='n')
+        for other, on in ((sf.Index(PositionsAllocator.get(m_), loc_is_iloc=True, name='other'), 'compare_name'),
+                          (sf.IndexGO(PositionsAllocator.get(m_), loc_is_iloc=True, name='n'), 'compare_class'),
+                          (sf.Index(np.arange(m_, dtype=np.int32), name='n'), 'compare_dtype')):
+            cands.append(dict(self=pa, other=other, **dict(dict(compare_name=False, compare_dtype=False, compare_class=False, skipna=opts['skipna']), **{on: True})))
+    return cands
+
+
+def _cells_of(m, sv, ov, cap=4):
+    import z3
+
+    def ev(t):
+        return m.eval(t, model_completion=True)
+    n = min(max(ev(sv.fields['n'].t).as_long(), 0), cap)
+    n2 = min(max(ev(ov.fields['n'].t).as_long(), 0), cap)
+    feq = z3.Function('ub_ieq', *([z3.IntSort()] * 3 + [z3.BoolSort()]))
+    fnan = z3.Function('ub_inan', *([z3.IntSort()] * 2 + [z3.BoolSort()]))
+    sa, oa = sv.fields['aid'].t, ov.fields['aid'].t
+    return n, n2, [[z3.is_true(ev(feq(sa, oa, i))), z3.is_true(ev(fnan(sa, i))), z3.is_true(ev(fnan(oa, i)))] for i in range(min(n, n2))]
+
+
+def _float_pair(n, n2, cells):
+    import numpy as np
+    a = np.arange(1, n + 1, dtype=np.float64)
+    b = np.arange(1, n2 + 1, dtype=np.float64)
+    for i, (eq, ns, no) in enumerate(cells):
+        if ns:
+            a[i] = np.nan
+        if no:
+            b[i] = np.nan
+        elif not eq:
+            b[i] = a[i] + 100 if not ns else 100.0 + i
+    return a, b
+
+
+def series_model_hook(m, params):
+    import z3
+    s, o = params['self'], params['other']
+    same = lambda x, y: z3.is_true(m.eval(x.t == y.t, model_completion=True))
+    n, n2, cells = _cells_of(m, s.fields['values'], o.fields['values'])
+    si, oi = s.fields['_index'], o.fields['_index']
+    k, k2, icells = _cells_of(m, si.fields['values'], oi.fields['values'])
+    return dict(n=n, n2=n2, cells=cells, k=k, k2=k2, icells=icells,
+                same_name=same(s.fields['_name'], o.fields['_name']), same_class=same(s.fields['__class__'], o.fields['__class__']), same_object=same(s.fields['sid'], o.fields['sid']),
+                same_dtype=same(s.fields['values'].fields['dtype'], o.fields['values'].fields['dtype']),
+                ix_same_name=same(si.fields['name'], oi.fields['name']), ix_same_class=same(si.fields['__class__'], oi.fields['__class__']),
+                ix_same_dtype=same(si.fields['dtype'], oi.fields['dtype']), ix_same_object=same(si.fields['iid'], oi.fields['iid']))
+
+
+def series_concrete_inputs(model):
+    import numpy as np
+    import static_frame as sf
+    h = model['__hook']
+    opts = dict(compare_name=bool(model.get('compare_name')), compare_dtype=bool(model.get('compare_dtype')), compare_class=bool(model.get('compare_class')),
+                skipna=bool(model.get('skipna', True)))
+    # a Series holds as many values as labels: take the value length for both (the index cells beyond it are dropped, missing ones are distinct fresh labels)
+    va, vb = _float_pair(h['n'], h['n2'], h['cells'])
+    ia, ib = _float_pair(len(va), len(vb), h['icells'][:min(len(va), len(vb))])
+    # labels must be unique within an index: NaN at most once is fine for float labels; make the non-missing labels distinct
+    def uniq(x, base):
+        seen, out = set(), x.copy()
+        for i, v in enumerate(out):
+            if v == v and v in seen:
+                out[i] = base + i
+            seen.add(out[i])
+        return out
+    ia, ib = uniq(ia, 1000.0), uniq(ib, 2000.0)
+    if np.isnan(ia).sum() > 1 or np.isnan(ib).sum() > 1:
+        return []
+    ixa = sf.Index(ia, name='i')
+    if h['ix_same_object'] and len(ia) == len(ib):
+        ixb = ixa
+    else:
+        ixb = (sf.Index if h['ix_same_class'] else sf.IndexDate)(ib if h['ix_same_dtype'] else ib.astype(object), name='i' if h['ix_same_name'] else 'j') if h['ix_same_class'] else sf.Index(ib, name='i' if h['ix_same_name'] else 'j')
+    sa = sf.Series(va, index=ixa, name='n')
+    if h['same_object']:
+        return [dict(self=sa, other=sa, **opts)]
+    cls_b = sf.Series if h['same_class'] else sf.SeriesHE
+    sb = cls_b(vb if h['same_dtype'] else vb.astype(object), index=ixb, name='n' if h['same_name'] else 'other')
+    return [dict(self=sa, other=sb, **opts)]
